@@ -105,6 +105,10 @@ pub enum MapOp {
     Index { k: u8, f: Form },
     IndexMutWrite { k: u8, f: Form, v: u8 },
     Retain { keep: u8, mutate: bool },
+    /// `retain` with a *stateful* predicate: its i-th answer is bit i of the tape, whatever entry it is
+    /// shown (an ideal dictionary shows every entry to the predicate exactly once; asking twice, or
+    /// deciding by anything but the one answer given for that entry, changes the result)
+    RetainTape { tape: u8, mutate: bool },
     Clear,
     Drain { take: u8, forget: bool },
     Entry { k: u8, t: u8, chain: EChain, v: u8 },
@@ -205,6 +209,7 @@ pub fn alphabet<K: KeyT, V: ValT>(n: usize, nk: u8, nv: u8, which: Alpha) -> Vec
             }
             a.push(MapOp::RemoveEntry { k: 0, f: Form::Key });
             a.push(MapOp::Retain { keep: 0b0101_0101, mutate: true });
+            a.push(MapOp::RetainTape { tape: 0b1111_1010, mutate: false });
             a.push(MapOp::Entry { k: 1 % nk, t: t1, chain: EChain::ORemove, v: 0 });
             a.push(MapOp::Entry { k: 0, t: t1, chain: EChain::OrInsert, v: nv - 1 });
             a.push(MapOp::Drain { take: 1, forget: true });
@@ -267,6 +272,14 @@ pub fn alphabet<K: KeyT, V: ValT>(n: usize, nk: u8, nv: u8, which: Alpha) -> Vec
                 a.push(MapOp::Retain { keep: keep as u8, mutate: false });
                 if nv > 1 {
                     a.push(MapOp::Retain { keep: keep as u8, mutate: true });
+                }
+            }
+            // every answer tape of n+1 bits (bit n answers every call beyond the n-th, if there is one)
+            for tape in 0..(1u16 << (n.min(6) + 1)) {
+                let tape = if tape >> n.min(6) & 1 != 0 { tape as u8 | (0xffu8 << n.min(6)) } else { tape as u8 };
+                a.push(MapOp::RetainTape { tape, mutate: false });
+                if nv > 1 && n > 0 {
+                    a.push(MapOp::RetainTape { tape, mutate: true });
                 }
             }
             a.push(MapOp::Clear);
@@ -396,6 +409,8 @@ pub struct ModelOut {
     pub calls: Option<u32>,
     /// the op is an insertion whose key was already present (stored-key identity case)
     pub identity_case: bool,
+    /// a visiting operation (retain) did not show its callback every stored entry exactly once
+    pub visit_error: Option<String>,
 }
 
 impl ModelOut {
@@ -407,6 +422,7 @@ impl ModelOut {
             leak_ok: Vec::new(),
             calls: None,
             identity_case: false,
+            visit_error: None,
         }
     }
 }
@@ -452,7 +468,7 @@ fn opt_v(x: Option<VD>) -> Ret {
     }
 }
 
-pub fn exec_model(model: &mut RefMap, op: &MapOp, a: &ArgD, nv: u8) -> ModelOut {
+pub fn exec_model(model: &mut RefMap, op: &MapOp, a: &ArgD, nv: u8, visits: &[(Option<KD>, VD)]) -> ModelOut {
     // non-reflexive key: every insertion path appends (or is refused when full)
     match *op {
         MapOp::Insert { k, .. } | MapOp::InsertUnchecked { k, .. } | MapOp::InsertKV { k, .. } if is_nan(k) => {
@@ -610,6 +626,31 @@ pub fn exec_model(model: &mut RefMap, op: &MapOp, a: &ArgD, nv: u8) -> ModelOut 
             }
             let _ = from;
             ModelOut::exact(vec![])
+        }
+        MapOp::RetainTape { tape, mutate } => {
+            let answer = |i: usize| tape >> i.min(7) & 1 != 0;
+            let mut want: Vec<(u8, u8)> = model.entries().iter().map(|(k, v)| (k.k, v.v)).collect();
+            want.sort_unstable();
+            let mut got: Vec<(u8, u8)> = visits.iter().map(|(k, v)| (k.map_or(255, |k| k.k), v.v)).collect();
+            got.sort_unstable();
+            let mut o = ModelOut::exact(vec![]);
+            if got != want {
+                o.visit_error = Some(format!(
+                    "retain showed its predicate the entries {got:?} (key, value; sorted) but the map held {want:?}: every entry must be shown exactly once"
+                ));
+            }
+            // the one answer given for an entry decides (first visit, should there be several)
+            let first = |k: &KD, by_id: bool| {
+                visits.iter().position(|(vk, _)| vk.is_some_and(|vk| if by_id { vk.id == k.id } else { vk.k == k.k })).map(answer).unwrap_or(true)
+            };
+            model.m.retain(|_, (k, _)| first(k, false));
+            model.nans.retain(|(k, _)| first(k, true));
+            if mutate {
+                for e in model.m.values_mut().chain(model.nans.iter_mut()) {
+                    e.1.v = (e.1.v + 1) % nv;
+                }
+            }
+            o
         }
         MapOp::Clear => {
             model.m.clear();
@@ -783,6 +824,7 @@ pub fn prepare<K: KeyT, V: ValT>(op: &MapOp, nv: u8) -> Args<K, V> {
             a.probe = Some(K::mk(k, ptag));
         }
         MapOp::Retain { .. }
+        | MapOp::RetainTape { .. }
         | MapOp::Clear
         | MapOp::Drain { .. }
         | MapOp::IterMutWrite { .. }
@@ -917,6 +959,31 @@ pub fn exec_real<K: KeyT, V: ValT, const N: usize>(
                         v.set((vd.v + 1) % nv);
                     }
                     keep & (1 << kd.k) != 0
+                })
+            }));
+            s.calls = calls;
+            s.items = items;
+            s.refs.extend(refs);
+            vec![]
+        }
+        MapOp::RetainTape { tape, mutate } => {
+            let mut calls = 0u32;
+            let mut items = Vec::new();
+            let mut refs = Vec::new();
+            crate::subj!(m.retain(|k, v| {
+                crate::subject::pause(|| {
+                    pl::tick(pl::Cb::Pred);
+                    let answer = tape >> calls.min(7) & 1 != 0;
+                    calls += 1;
+                    let kd = k.kd();
+                    let vd = v.vd();
+                    refs.push((k as *const K as usize, std::mem::size_of::<K>()));
+                    refs.push((v as *const V as usize, std::mem::size_of::<V>()));
+                    items.push((Some(kd), vd));
+                    if mutate {
+                        v.set((vd.v + 1) % nv);
+                    }
+                    answer
                 })
             }));
             s.calls = calls;
@@ -1677,7 +1744,7 @@ impl<K: KeyT, V: ValT, const N: usize> MapSys<K, V, N> {
                 PanicKind::Container(_) => (vec![F::Panic], true),
             },
         };
-        let mo = exec_model(model, op, &ad, nv);
+        let mo = exec_model(model, op, &ad, nv, &side.items);
         if cx.quiet {
             leaked.extend(mo.leak_ok.iter().copied());
             drop(side);
@@ -1770,6 +1837,11 @@ impl<K: KeyT, V: ValT, const N: usize> MapSys<K, V, N> {
         }
         if let Some(c) = mo.calls {
             cx.check(C11, side.calls == c, || format!("closure ran {} times, expected {c}", side.calls));
+        }
+        if let MapOp::RetainTape { .. } = op {
+            let ok = mo.visit_error.is_none();
+            consistent &= ok;
+            cx.check(pm, ok, || mo.visit_error.clone().unwrap_or_default());
         }
         if let MapOp::Retain { .. } = op {
             let mut seen: Vec<u8> = side.items.iter().map(|(k, _)| k.unwrap().k).collect();
